@@ -139,6 +139,28 @@ Theorem C19_pilot_verify_loses_nothing :
 Proof. exact pd_verify_untouched. Qed.
 Print Assumptions C19_pilot_verify_loses_nothing.
 
+(* ---------------------------------------------------------------- sequences *)
+
+(* Normalisation is a function of its input; two applications are independent.  For any
+   interleaving of operations on any number of descriptions -- construct, verify, the user
+   mutating a list/dict attribute of a description, mutations of foreign objects (the
+   constructor's input after verify, the result of as_dict) -- every description ends up
+   exactly as if the operations on the others had never happened.  (mk, vf) is instantiated
+   with (construct T, verify T) and (construct T, pd_verify T). *)
+Theorem C19_sequence_independent :
+  forall (mk : descr -> descr) (vf : descr -> perr + descr) (i : nat) (ops : list dop) (st : dstore),
+    slot_get i (drun mk vf ops st) = slot_get i (drun mk vf (filter (touches i) ops) st).
+Proof. exact drun_independent. Qed.
+Print Assumptions C19_sequence_independent.
+
+(* a description built and verified after any history is what its own input makes it *)
+Theorem C19_sequence_fresh :
+  forall (mk : descr -> descr) (vf : descr -> perr + descr) (ops : list dop) (st : dstore) (j : nat) (x : descr),
+    slot_get j (drun mk vf (ops ++ [DConstruct j x; DVerify j]) st)
+    = Some (match vf (mk x) with inr v => v | inl _ => mk x end).
+Proof. exact drun_fresh. Qed.
+Print Assumptions C19_sequence_fresh.
+
 (* ---------------------------------------------------------------- slots *)
 
 (* old encodings (ints, dicts, RO objects, (index, occupation) tuples) -> new format:
